@@ -96,6 +96,9 @@ func TestVerifLBTrace(t *testing.T) {
 			if steps > 400 {
 				steps = 400
 			}
+			if hno%4 == 3 {
+				steps = 530 + rng.Intn(200) // long histories: counters and cursors pass 256 and 512 whatever the number of loops
+			}
 			for s := 0; s < steps; s++ {
 				if policy != "rr" && rng.Intn(4) == 0 { // a connection closes somewhere
 					l := rng.Intn(n)
